@@ -27,7 +27,8 @@ def unescGo : List Char → Option (List Nat)
     | some x, some y, some rest => some ((x * 16 + y) :: rest)
     | _, _, _ => none
   | '%' :: _ => none
-  | c :: r => if c.toNat < 128 then (unescGo r).map (c.toNat :: ·) else none
+  -- a raw non-ASCII character stands for its UTF-8 bytes (the harness reads the token as bytes)
+  | c :: r => (unescGo r).map (utf8Bytes (String.singleton c) ++ ·)
 
 /-- `=<esc>` token → string -/
 def unesc (tok : String) : Option String :=
@@ -300,8 +301,19 @@ def fmtOutcomeTime : Outcome Nat → String
   | .err e => "err " ++ e
   | .panic => "panic"
 
+/-- number of trailing zero bits (`fuel` ≥ bit length) -/
+def tzNat : Nat → Nat → Nat
+  | 0, _ => 0
+  | fuel + 1, n => if n != 0 && n % 2 == 0 then 1 + tzNat fuel (n / 2) else 0
+
+/-- the harness prints `big` instead of the exact fraction of a finite `f64` `±m·2^ex` (`m` odd)
+when `ex > 60` or `ex < -120` (`f64_exact` in c12w.rs) -/
+def f64IsBig (q : Rat) : Bool :=
+  if q.den == 1 then tzNat (q.num.natAbs.log2 + 1) q.num.natAbs > 60
+  else q.den.log2 > 120
+
 def fmtF64 : F64 → String
-  | .finite q => fmtRat q
+  | .finite q => if f64IsBig q then "big" else fmtRat q
   | .inf false => "inf"
   | .inf true => "-inf"
   | .nan => "nan"
@@ -338,15 +350,19 @@ def pureOp (toks : List String) : Option (List String) :=
   | ["disc", k] => (wsErrorOf k).map fun e => ["disc " ++ fmtBool (isWebsocketDisconnected e)]
   | ["de_u64_ms", j] => (unesc j).map fun j => ["de " ++ fmtOutcomeTime (deU64EpochMs (lexJson j))]
   | ["de_str_u64_ms", j] => (unesc j).map fun j => ["de " ++ fmtOutcomeTime (deStrU64EpochMs (lexJson j))]
-  | ["de_str_f64_ms", j] => (unesc j).map fun j => ["de " ++ fmtOutcomeTime (deStrF64EpochMs ieee (lexJson j))]
-  | ["de_str_f64_s", j] => (unesc j).map fun j => ["de " ++ fmtOutcomeTime (deStrF64EpochS ieee (lexJson j))]
+  -- `parseF64Fast` = `parseF64Str` evaluated without computing `10^E` for huge `|E|`
+  -- (`Props.C12W.f64_fast_agrees`): a driver must not crash on `"0e99999999999"`
+  | ["de_str_f64_ms", j] => (unesc j).map fun j =>
+      ["de " ++ fmtOutcomeTime (deStrF64EpochMsWith (parseF64Fast ieee) (lexJson j))]
+  | ["de_str_f64_s", j] => (unesc j).map fun j =>
+      ["de " ++ fmtOutcomeTime (deStrF64EpochSWith (parseF64Fast ieee) (lexJson j))]
   | ["de_str_u64", j] => (unesc j).map fun j =>
       match deStr parseU64Str (lexJson j) with
       | .ok n => ["v ok " ++ toString n]
       | .err e => ["v err " ++ e]
       | .panic => ["v panic"]
   | ["de_str_f64", j] => (unesc j).map fun j =>
-      match deStr (parseF64Str ieee) (lexJson j) with
+      match deStr (parseF64Fast ieee) (lexJson j) with
       | .ok x => ["v ok " ++ fmtF64 x]
       | .err e => ["v err " ++ e]
       | .panic => ["v panic"]
@@ -458,11 +474,87 @@ def decimalOfJsonStr (j : Json) : Option (List Char) :=
 def foreignToFloat (cs : List Char) : Bool :=
   cs.isEmpty || cs.any fun c => !(isDigit c || "+-.eEinfatyINFATY".toList.contains c)
 
-/-- spec for the time helpers: decided only where the documentation decides it — a plain decimal
-numeral (resp. a decimal number that binary64 represents exactly) inside chrono's range -/
+/-! #### spec-side reading of a decimal numeral, written from the grammar in the std docs
+(`Number ::= (Digit+ | Digit+ '.' Digit* | Digit* '.' Digit+) Exp?`, `Exp ::= 'e' Sign? Digit+`),
+independent of the model's `parseNumber` / `parseNumberParts` / `nearestF64` -/
+
+def specDigits (s : String) : Option (List Char) :=
+  if s.toList.all isDigit then some s.toList else none
+
+/-- `i`, `i.`, `i.f`, `.f` → (mantissa, number of mantissa digits, number of fraction digits) -/
+def specMantissa (s : String) : Option (Nat × Nat × Nat) :=
+  match s.splitOn "." with
+  | [i] =>
+    match specDigits i with
+    | some ds => if ds.isEmpty then none else some (specNumeral ds, ds.length, 0)
+    | none => none
+  | [i, f] =>
+    match specDigits i, specDigits f with
+    | some a, some b => if a.isEmpty && b.isEmpty then none else some (specNumeral (a ++ b), a.length + b.length, b.length)
+    | _, _ => none
+  | _ => none
+
+def specExponent (s : String) : Option Int :=
+  let (neg, body) : Bool × List Char := match s.toList with
+    | '-' :: r => (true, r)
+    | '+' :: r => (false, r)
+    | r => (false, r)
+  if body.isEmpty || !body.all isDigit then none
+  else some (if neg then -(specNumeral body : Int) else (specNumeral body : Int))
+
+/-- an UNSIGNED numeral: `(m, D, E)` with value `m · 10^E`, `D` = number of mantissa digits -/
+def specDecimal (cs : List Char) : Option (Nat × Nat × Int) :=
+  let s := String.ofList (cs.map fun c => if c == 'E' then 'e' else c)
+  match s.splitOn "e" with
+  | [mant] => (specMantissa mant).map fun (m, d, f) => (m, d, -(f : Int))
+  | [mant, ex] =>
+    match specMantissa mant, specExponent ex with
+    | some (m, d, f), some e => some (m, d, e - (f : Int))
+    | _, _ => none
+  | _ => none
+
+/-- odd part of a positive number -/
+def oddPart : Nat → Nat → Nat
+  | 0, n => n
+  | fuel + 1, n => if n != 0 && n % 2 == 0 then oddPart fuel (n / 2) else n
+
+/-- is the non-negative rational a binary64 number? (`k·2^x`, `k < 2^53`, `x ≥ -1074`, `< 2^1024`) -/
+def specIsBinary64 (q : Rat) : Bool :=
+  let n := q.num.toNat
+  n == 0 ||
+    (oddPart (q.den.log2 + 1) q.den == 1 && q.den.log2 ≤ 1074 &&
+     oddPart (n.log2 + 1) n < 2 ^ 53 && q < (2 : Rat) ^ (1024 : Nat))
+
+/-- chrono's last representable second (+262142-12-31T23:59:59Z), spec-side constant -/
+def specLastSecond : Nat := 8210266876799
+
+/-- **When the helpers must panic** (the code's `unwrap` inside chrono's `From<SystemTime>`; the
+doc comments are silent, the bound is chrono's): the value lies beyond chrono's last instant.
+For the `f64` helpers the value is the binary64 nearest to the decimal; at the bound binary64 is
+spaced 1 ms (8.2e15 ∈ [2^52, 2^53)) resp. 2^-10 s (8.2e12 ∈ [2^42, 2^43)) and the bound has an even
+mantissa, so the decimals that round into the band are exactly those from half a spacing below
+the bound upwards. Written by hand from these facts; `nearestF64` is not consulted. -/
+def specBeyondMs (q : Rat) : Bool := ((specLastSecond + 1) * 1000 : Nat) - (1 : Rat) / 2 ≤ q
+def specBeyondS (q : Rat) : Bool := ((specLastSecond + 1 : Nat) : Rat) - (1 : Rat) / 2048 ≤ q
+
+/-- spec for the time helpers: decided where the documentation (value) or chrono's range (panic)
+decides it — a plain decimal numeral (resp. a decimal number that binary64 represents exactly)
+inside chrono's range is the instant; a value beyond chrono's last instant is a panic -/
 def specDe (op : String) (j : Json) : Option String :=
   let inRange (nanos : Nat) : Option String :=
-    if nanos / nanosPerSec ≤ maxChronoSecs then some ("de ok " ++ toString nanos) else none
+    if nanos / nanosPerSec ≤ specLastSecond then some ("de ok " ++ toString nanos) else some "de panic"
+  let f64Helper (cs : List Char) (beyond : Rat → Bool) (instant : Rat → Nat) : Option String :=
+    if foreignToFloat cs then some "de err {fempty|finvalid}" else
+    match specDecimal cs with
+    | none => none          -- signs, words, malformed numerals: not decided here
+    | some (m, d, e) =>
+      if m == 0 then some "de ok 0"                        -- zero whatever the exponent
+      else if 400 ≤ e then some "de panic"                 -- ≥ 10^400: beyond everything
+      else if e + (d : Int) ≤ -400 then none               -- < 10^-400: rounding decides, silent
+      else
+        let q : Rat := (m : Rat) * (10 : Rat) ^ e
+        if beyond q then some "de panic"
+        else if specIsBinary64 q then inRange (instant q) else none
   match op with
   | "de_u64_ms" =>
     match j with
@@ -481,20 +573,11 @@ def specDe (op : String) (j : Json) : Option String :=
     | _ => some "de err json"
   | "de_str_f64_ms" =>
     match j with
-    | .str cs false =>
-      if foreignToFloat cs then some "de err {fempty|finvalid}" else
-      match parseNumber cs with
-      | some q => if ieee.round q == .finite q && q < (2 : Rat) ^ 64 then inRange (specEpochMs q.floor.toNat) else none
-      | none => none
+    | .str cs false => f64Helper cs specBeyondMs fun q => specEpochMs q.floor.toNat
     | _ => some "de err json"
   | "de_str_f64_s" =>
     match j with
-    | .str cs false =>
-      if foreignToFloat cs then some "de err {fempty|finvalid}" else
-      match parseNumber cs with
-      | some q =>
-        if ieee.round q == .finite q && q < (2 : Rat) ^ 64 then inRange (roundHalfEven (q * nanosPerSec)).toNat else none
-      | none => none
+    | .str cs false => f64Helper cs specBeyondS fun q => (roundHalfEven (q * nanosPerSec)).toNat
     | _ => some "de err json"
   | _ => none
 
